@@ -399,7 +399,7 @@ func (c *CountingSink) Write(p []byte) (int, error) {
 var ErrSink = errors.New("verif: injected sink failure")
 
 // FaultSink accepts bytes until the k-th Write call (0-based), which it fails
-// with an error after accepting none ("err") or half ("short") of the bytes;
+// with an error after accepting none ("err"), half ("short") or all ("full") of the bytes;
 // permanent faults keep failing afterwards.
 type FaultSink struct {
 	K         int
@@ -418,8 +418,12 @@ func (f *FaultSink) Write(p []byte) (int, error) {
 	f.N++
 	if i == f.K || (f.Permanent && i > f.K) {
 		n := 0
-		if f.Kind == "short" {
+		switch f.Kind {
+		case "short":
 			n = len(p) / 2
+		case "full": // the destination took every byte of this write and reports an error with it (a quota reached
+			// exactly, a tee whose second leg failed, a flush after accepting the buffer)
+			n = len(p)
 		}
 		f.Accepted = append(f.Accepted, p[:n]...)
 		if !f.Fired {
